@@ -207,3 +207,70 @@ Theorem C04_stake_at_that_moment : forall c steps k s A,
   exists r, nth_error (session c steps) k = Some r /\ lookups r = [A].
 Proof. exact session_stake_at_that_moment. Qed.
 Print Assumptions C04_stake_at_that_moment.
+
+(* ---- composition with C17 (proofs/Compose_p2p.v) -----------------------------------------------------------
+   The EBlock effects above are the Block events of model/Blocklist.v ([Compose_p2p.block_events p t0 effs]:
+   blockPeer on the remote peer id p at time t0 for every EBlock among the effects of one call).  From the
+   inputs of a handshake to the answers of the blocklist and of the gater, for every configuration, script
+   tail, write-failure pattern, and whatever the list saw before (pre) and sees afterwards (post).
+   Non-vacuity: Compose_p2p.ex_refusals, Compose_p2p.ex_blocked_later. *)
+From MevVerif Require model.Blocklist proofs.Compose_p2p.
+
+(* C04 o C17 (C17_permanent, C17_gater_calls).  A remote whose request carries a signature that does not
+   verify is refused: the connection is closed, nothing is registered, announced or returned, and from
+   then on the peer is blocked at every time and the gater (as wired by libp2p.New) refuses to dial it and
+   refuses its secured connections. *)
+Theorem C04_bad_signature_blocked_for_ever :
+  forall c o wfail f1 rest role token sig p t0 pre post has_notifier add,
+  as_req f1 = Some (role, token, sig) ->
+  (forall a, verify o sig (role ++ token) <> VOk true a) ->
+  let effs := inbound c o wfail (f1 :: rest) has_notifier add in
+  In EClosePeer effs /\ (forall e, In e effs -> announces e = false) /\
+  forall t,
+    Blocklist.query_answer Blocklist.wiring_now (pre ++ Compose_p2p.block_events p t0 effs ++ post) p t = true /\
+    Blocklist.dial_answer Blocklist.wiring_now (pre ++ Compose_p2p.block_events p t0 effs ++ post) p t = false /\
+    Blocklist.secured_answer Blocklist.wiring_now (pre ++ Compose_p2p.block_events p t0 effs ++ post) p t = false.
+Proof. exact Compose_p2p.bad_signature_blocked_for_ever. Qed.
+Print Assumptions C04_bad_signature_blocked_for_ever.
+
+(* The same for a verified signature whose recovered address is not the address of the authenticated
+   transport identity. *)
+Theorem C04_address_mismatch_blocked_for_ever :
+  forall c o wfail f1 rest role token sig a observed p t0 pre post has_notifier add,
+  as_req f1 = Some (role, token, sig) ->
+  verify o sig (role ++ token) = VOk true a -> addr_of_pid o = POk observed -> observed <> a ->
+  let effs := inbound c o wfail (f1 :: rest) has_notifier add in
+  In EClosePeer effs /\ (forall e, In e effs -> announces e = false) /\
+  forall t,
+    Blocklist.query_answer Blocklist.wiring_now (pre ++ Compose_p2p.block_events p t0 effs ++ post) p t = true /\
+    Blocklist.dial_answer Blocklist.wiring_now (pre ++ Compose_p2p.block_events p t0 effs ++ post) p t = false /\
+    Blocklist.secured_answer Blocklist.wiring_now (pre ++ Compose_p2p.block_events p t0 effs ++ post) p t = false.
+Proof. exact Compose_p2p.address_mismatch_blocked_for_ever. Qed.
+Print Assumptions C04_address_mismatch_blocked_for_ever.
+
+(* A provider request with a verified, matching address but no confirmed stake is refused with the stake
+   error (the timed block of C17_inbound_stake_failure_blocks_full_term). *)
+Theorem C04_unstaked_provider_refused : forall c o wfail f1 rest token sig a,
+  as_req f1 = Some (provider_string, token, sig) ->
+  verify o sig (provider_string ++ token) = VOk true a -> addr_of_pid o = POk a -> registered o a = false ->
+  res (handle c o wfail (f1 :: rest)) = Refuse RStake.
+Proof. exact Compose_p2p.handle_refuses_unstaked_provider. Qed.
+Print Assumptions C04_unstaked_provider_refused.
+
+(* Every other outcome (enrolment; refusal for a failed read or write, an unusable peer id, a wrong
+   echo) places no block at all. *)
+Theorem C04_other_outcomes_do_not_block : forall c o wfail script p t0 has_notifier add,
+  (forall cl, res (handle c o wfail script) = Refuse cl -> cl <> RSig /\ cl <> RAddr /\ cl <> RStake) ->
+  Compose_p2p.block_events p t0 (inbound c o wfail script has_notifier add) = [].
+Proof. exact Compose_p2p.other_outcomes_do_not_block. Qed.
+Print Assumptions C04_other_outcomes_do_not_block.
+
+(* C04 o C14.  The [add] value of the theorems above instantiated by the registry model
+   (model/PeerRegistry.v, [Compose_p2p.add_of]): the two models of the tail of handleConnectReq agree on
+   when notifier.Connected is called. *)
+From MevVerif Require model.PeerRegistry.
+Theorem C04_announce_models_agree : forall r c pe closed A T,
+  In (ENotify A T) (handle_connect_req true (Compose_p2p.add_of r c pe closed) (Enrol A T)) <->
+  PeerRegistry.inbound_announces r c pe closed = true.
+Proof. exact Compose_p2p.announce_models_agree. Qed.
+Print Assumptions C04_announce_models_agree.
